@@ -765,6 +765,82 @@ void SharedThrowingSetCase(Ctx& ctx) {
   }
 }
 
+// A pending Promise overwritten by move assignment is a dropped Promise: its Future gets StopError exactly once (at the
+// latest when the moved-from object dies), and the Promise that now owns the other state still delivers to that one.
+void OverwriteCase(Ctx& ctx) {
+  using R = Result<Tracked, MyError>;
+  ResetTags();
+  int code = static_cast<int>(ctx.rng.In(1, 1000000));
+  u32 pj = ctx.rng.Below(5), cj = ctx.rng.Below(5);
+  int attach = static_cast<int>(ctx.rng.Below(2));  // 0 ThenInline, 1 DetachInline
+  int form = static_cast<int>(ctx.rng.Below(2));    // 0 p1 = std::move(p2), 1 slot in a vector re-armed
+  ctx.Note("pending Promise overwritten by move assignment (%s); consumers %s; pre-yields p=%u c=%u ",
+           form == 0 ? "two locals" : "vector slot", attach == 0 ? "ThenInline" : "DetachInline", pj, cj);
+  ctx.Class(form == 0 ? "overwrite-local" : "overwrite-slot");
+  Shared sh1, sh2;
+  Obs obs1, obs2;
+  {
+    auto [fa, pa] = yaclib::MakeContract<Tracked, MyError>();
+    auto [fb, pb] = yaclib::MakeContract<Tracked, MyError>();
+    auto f1 = std::move(fa);
+    auto f2 = std::move(fb);
+    yaclib::Future<void, MyError> t1, t2;
+    yaclib_std::thread producer([&, p1 = std::move(pa), p2 = std::move(pb)]() mutable {
+      Jitter(pj);
+      VF_W(sh1.side, "C04,C01");
+      sh1.side = -1;
+      sh1.set_call = Stamp();
+      if (form == 0) {
+        p1 = std::move(p2);
+        {
+          auto dead = std::move(p2);  // whatever the moved-from object still owns is dropped here
+        }
+        sh1.set_ret = Stamp();
+        Jitter(1);
+        VF_W(sh2.side, "C04,C01");
+        sh2.side = code;
+        sh2.set_call = Stamp();
+        std::move(p1).Set(Tracked{code});
+      } else {
+        std::vector<yaclib::Promise<Tracked, MyError>> slots;
+        slots.push_back(std::move(p1));
+        slots[0] = std::move(p2);
+        {
+          auto dead = std::move(p2);
+        }
+        sh1.set_ret = Stamp();
+        Jitter(1);
+        VF_W(sh2.side, "C04,C01");
+        sh2.side = code;
+        sh2.set_call = Stamp();
+        std::move(slots[0]).Set(Tracked{code});
+      }
+      sh2.set_ret = Stamp();
+    });
+    yaclib_std::thread consumer([&] {
+      Jitter(cj);
+      auto cb1 = [&obs1, &sh1](R&& r) {
+        Digest<Tracked>(obs1, r, sh1);
+      };
+      auto cb2 = [&obs2, &sh2](R&& r) {
+        Digest<Tracked>(obs2, r, sh2);
+      };
+      if (attach == 0) {
+        t1 = std::move(f1).ThenInline(cb1);
+        t2 = std::move(f2).ThenInline(cb2);
+      } else {
+        std::move(f1).DetachInline(cb1);
+        std::move(f2).DetachInline(cb2);
+      }
+    });
+    producer.join();
+    consumer.join();
+  }
+  ctx.SetNontrivial(true);
+  CheckObs(ctx, obs1, Expect{2, -1}, sh1, 1, "consumer of a pending Promise that was overwritten by move assignment");
+  CheckObs(ctx, obs2, Expect{0, code}, sh2, 1, "consumer of the Promise that was moved into the overwritten one");
+}
+
 void Dispatch(Ctx& ctx, int ck, bool allow_moveonly, bool allow_void) {
   u32 n = 1 + (allow_moveonly ? 1 : 0) + (allow_void ? 1 : 0);
   u32 k = ctx.rng.Below(n);
@@ -793,6 +869,9 @@ VF_CELL(owner_destroyed, "continuation-destroys-promise-owner", "C01,C03,C04", 5
 }
 VF_CELL(throwing_set, "set-throws-then-retry-or-drop", "C01,C03", 5) {
   ThrowingSetCase(ctx);
+}
+VF_CELL(overwrite, "pending-promise-overwritten", "C01,C03", 4) {
+  OverwriteCase(ctx);
 }
 VF_CELL(shared_throwing_set, "shared-set-throws-then-retry-or-drop", "C06,C03", 4) {
   SharedThrowingSetCase(ctx);
